@@ -56,6 +56,14 @@ Proof.
   rewrite Hb. apply IH.
 Qed.
 
+(* one round of a while loop: test, then body *)
+Definition iter {S} (cond : S -> option bool) (body : S -> option (ctl * S)) (s : S) : option (ctl * S) :=
+  match cond s with Some true => body s | Some false => Some (Break, s) | None => None end.
+Lemma while_iter {S} (cond : S -> option bool) body fuel s :
+  while_ (Datatypes.S fuel) cond body s =
+  match iter cond body s with Some (Next, s') => while_ fuel cond body s' | Some (Break, s') => Some s' | None => None end.
+Proof. unfold iter. cbn [while_]. destruct (cond s) as [[|]|]; reflexivity. Qed.
+
 (* ---------------------------------------------------------------- Primitive.format / Terminal.format *)
 Lemma gen_Primitive_format_eq s args : gen_Primitive_format s args = seq_format s args.
 Proof. unfold gen_Primitive_format. mrun. reflexivity. Qed.
@@ -86,19 +94,11 @@ Section Str.
   Section While.
     Variable cond : sstate -> option bool.
     Variable body : sstate -> option (ctl * sstate).
-    (* one round of the while loop: test, then body *)
-    Definition iter (s : sstate) : option (ctl * sstate) :=
-      match cond s with Some true => body s | Some false => Some (Break, s) | None => None end.
-    Lemma while_iter fuel s :
-      while_ (S fuel) cond body s =
-      match iter s with Some (Next, s') => while_ fuel cond body s' | Some (Break, s') => Some s' | None => None end.
-    Proof. unfold iter. cbn [while_]. destruct (cond s) as [[|]|]; reflexivity. Qed.
-
     (* [e]: how the loop is left when the stack has run empty -- by a break, or by one more test *)
     Variable e : ctl.
-    Hypothesis e_spec : e = Break \/ forall cur, iter (cur, []) = Some (Break, (cur, [])).
+    Hypothesis e_spec : e = Break \/ forall cur, iter cond body (cur, []) = Some (Break, (cur, [])).
     Hypothesis iter_spec : forall st cur p a,
-      iter (cur, rev st ++ [(p, a)]) =
+      iter cond body (cur, rev st ++ [(p, a)]) =
       Some (if arity_matches (List.length a) p
             then match st with
                  | [] => (e, (F p a, []))
@@ -369,12 +369,56 @@ Section AdfEquiv.
     cbn [for_ map compile_adf_loop def_of_pair d_ps d_ctx d_tree d_name]. rewrite Hb.
     destruct (compile _ _ _ _) as [k|]; [apply IH|reflexivity].
   Qed.
+
+  (* the same loop written as `while pairs: pset, subexpr = pairs.pop(); ...` *)
+  Definition astate := (context V * option (compiled V) * list (fpset V * list node))%type.
+  Lemma while_adf (cond : astate -> option bool) (body : astate -> option (ctl * astate)) :
+    (forall a f, iter cond body (a, f, []) = Some (Break, (a, f, []))) ->
+    (forall a f l p, iter cond body (a, f, l ++ [p]) =
+       match compile cval (fp_ps (fst p)) (dupdate (fp_ctx (fst p)) a) (snd p) with
+       | Some k => Some (Next, (dset (fp_name (fst p)) (adf_obj cval k) a, Some k, l))
+       | None => None
+       end) ->
+    forall l fuel a f, List.length l < fuel ->
+      match while_ fuel cond body (a, f, l) with Some (_, f', _) => f' | None => None end
+      = compile_adf_loop cval (map def_of_pair (rev l)) a f.
+  Proof.
+    intros H0 H1 l. induction l as [|p l IH] using rev_ind; intros fuel a f Hf;
+      (destruct fuel as [|fu]; [inversion Hf|]); rewrite while_iter.
+    - rewrite H0. reflexivity.
+    - rewrite H1, rev_unit. cbn [map compile_adf_loop def_of_pair d_ps d_ctx d_tree d_name].
+      destruct (compile _ _ _ _) as [k|]; [|reflexivity].
+      apply IH. rewrite app_length in Hf. cbn in Hf. lia.
+  Qed.
+
+  Lemma flat_bind_mid {A B C} (m : option (A * option B * C)) :
+    flat (bind m (fun '(_, f, _) => ret f)) = match m with Some (_, f, _) => f | None => None end.
+  Proof. destruct m as [[[a [f|]] c]|]; reflexivity. Qed.
 End AdfEquiv.
 Arguments def_of_pair {V} p.
 
+Ltac adf_step cval p t :=
+  cbn [fst snd fp_set_ctx fp_ps fp_ctx fp_name];
+  let E := fresh "E" in
+  destruct (compile cval (fp_ps p) _ t) as [k|] eqn:E; [|reflexivity]; mrun;
+  apply compile_shape in E;
+  destruct (ps_arguments (fp_ps p)); [destruct E as [v ->]|destruct E as (pp & b & g & ->)]; reflexivity.
+
 Ltac adf_script cval :=
   cbv zeta;
-  match goal with |- flat (bind (for_ _ ?body _) _) = _ =>
+  match goal with
+  | |- flat (bind (while_ _ ?C ?B _) _) = _ =>
+    assert (H0 : forall a f, iter C B (a, f, []) = Some (Break, (a, f, [])))
+      by (intros; unfold iter; mrun; reflexivity);
+    assert (H1 : forall a f l p, iter C B (a, f, l ++ [p]) =
+       match compile cval (fp_ps (fst p)) (dupdate (fp_ctx (fst p)) a) (snd p) with
+       | Some k => Some (Next, (dset (fp_name (fst p)) (adf_obj cval k) a, Some k, l))
+       | None => None
+       end)
+      by (intros a f l [p t]; unfold iter; mrun; adf_step cval p t);
+    rewrite <- map_rev;
+    etransitivity; [apply flat_bind_mid|]; apply (while_adf _ cval _ _ H0 H1); apply Nat.lt_succ_diag_r
+  | |- flat (bind (for_ _ ?body _) _) = _ =>
     assert (Hb : forall p adfdict func, body p (adfdict, func) =
        match compile cval (fp_ps (fst p)) (dupdate (fp_ctx (fst p)) adfdict) (snd p) with
        | Some k => Some (Next, (dset (fp_name (fst p)) (adf_obj cval k) adfdict, Some k))
